@@ -228,6 +228,11 @@ def run_instance(u, nm, inst, tier, keep=False):
             # legacy (non-DFCC) instrumentation: static frame checks, far smaller formulas on large functions
             a1 = os.path.join(work, 'a1.gb'); a2 = os.path.join(work, 'a2.gb')
             steps = [['goto-instrument', '--add-library', a, a1]]
+            pre = [subst(g, inst) for g in u.get('replace_first', [])]
+            if pre:   # callees replaced by their contracts BEFORE loop contracts are applied (which inlines callees)
+                a1r = os.path.join(work, 'a1r.gb')
+                steps.append(['goto-instrument'] + [x for g in pre for x in ('--replace-call-with-contract', g)] + [a1, a1r])
+                a1 = a1r
             if u.get('loop_contracts', True) and any(sp['loops'] for sp in specs):
                 steps.append(['goto-instrument', '--apply-loop-contracts', a1, a2])
             else:
